@@ -117,18 +117,20 @@
     fn slice_date_diff(source: NaiveDate, target: NaiveDate) -> Duration { /*@SLICE to_duration.date_diff*/ }
     fn slice_time_diff(source: NaiveDateTime, target: NaiveDateTime) -> Duration { /*@SLICE to_duration.time_diff*/ }
 
-    fn any_date() -> NaiveDate {
+    fn any_date_between(lo: i32, hi: i32) -> NaiveDate {
         let days: i32 = kani::any();
-        // days from 0001-01-01 .. 9999-12-31
-        kani::assume(days >= 1 && days <= 3_652_059);
+        kani::assume(days >= lo && days <= hi);
         match NaiveDate::from_num_days_from_ce_opt(days) { Some(d) => d, None => { kani::assume(false); unreachable!() } }
     }
 
     // C09: 'A to B' is the absolute number of days between the two dates, symmetric in A and B
     #[kani::proof]
-    fn date_difference() {
-        let a = any_date();
-        let b = any_date();
+    fn date_difference() { date_difference_in(1, 3_652_059) }   // 0001-01-01 .. 9999-12-31
+    #[kani::proof]
+    fn date_difference_1990_2040() { date_difference_in(726_468, 745_000) }
+    fn date_difference_in(lo: i32, hi: i32) {
+        let a = any_date_between(lo, hi);
+        let b = any_date_between(lo, hi);
         let d1 = slice_date_diff(a, b);
         let d2 = slice_date_diff(b, a);
         assert!(d1 == d2, "OBL:difference_is_symmetric");
